@@ -9,12 +9,16 @@
    * (a) SELECTION SEMANTICS.  `leaf[indices]` (NumPy/JAX native indexing) is given its meaning as a
      gather: an output shape and the list `sel` of the flat input positions, in row-major output order
      (`index_leaf`).  It is COMPUTED for every tuple of Python ints (any sign), slices (any
-     start/stop/step, None included, negative steps), one Ellipsis and AT MOST ONE array entry (a
-     boolean mask of any rank, or an integer array of any rank with negative/repeated entries), with
-     NumPy's placement rule for the advanced dimensions (in place when the advanced entries - the
-     array and the ints - are adjacent in the tuple, first otherwise).  For two or more array entries
-     (broadcast advanced indices) `index_leaf` answers `Ok None` and the gather is taken from the
-     implementation (`ext`: the operator applied to arange): that is NumPy semantics, not furax logic.
+     start/stop/step, None included, negative steps), one Ellipsis and ANY NUMBER of array entries
+     (boolean masks of any rank, integer arrays of any rank with negative/repeated entries).  With at
+     most one array entry `index_leaf` computes it directly (NumPy's placement rule for the advanced
+     dimension: in place when the advanced entries - the array and the ints - are adjacent in the
+     tuple, first otherwise); with two or more array entries `index_leaf` answers `Ok None` and
+     `index_adv` computes NumPy's general advanced indexing: masks become integer arrays by nonzero (a
+     rank-k mask is an index on the k merged axes), the advanced entries (arrays and ints) are
+     broadcast to a common shape B, the k-th element of the broadcast arrays fixes the coordinates of
+     the advanced axes, and the B axes stand in place of the advanced block when the advanced entries
+     are adjacent in the tuple, in front otherwise.  `leaf_gather` is the union of the two.
      Out-of-bounds integers are outside the modelled domain (`Err IndexError`; JAX clamps instead).
    * (b) FURAX'S OWN LOGIC is modelled exactly: tuple wrapping, ellipsis count check, unique_indices
      inference, mask-requires-out_structure, out structure by abstract evaluation, indexed_axes (the
@@ -193,8 +197,8 @@ Fixpoint find_arr (k : nat) (axs : list axsel) : option nat :=
 
 Record gather := mkG { g_out : shape; g_sel : list nat }.
 
-(* leaf[indices]: Err = the indexing raises; Ok None = two or more array entries (taken from the
-   implementation); Ok (Some g) = the gather *)
+(* leaf[indices] for at most one array entry: Err = the indexing raises; Ok None = two or more array
+   entries (index_adv below); Ok (Some g) = the gather *)
 Definition index_leaf (sh : shape) (l : list ix) : result (option gather) :=
   if 1 <? count_ell l then Err IndexError
   else if length sh <? consumed l then Err IndexError
@@ -218,21 +222,101 @@ Definition index_leaf (sh : shape) (l : list ix) : result (option gather) :=
         else Ok None
     end.
 
-Definition leaf_gather (sh : shape) (l : list ix) (ext : option gather) : result gather :=
+(* ---- two or more array entries: NumPy advanced indexing with broadcasting ---- *)
+Fixpoint map2 {A B C} (f : A -> B -> C) (l : list A) (m : list B) : list C :=
+  match l, m with
+  | a :: l', b :: m' => f a b :: map2 f l' m'
+  | _, _ => []
+  end.
+
+(* np.broadcast_shapes: right-aligned (here: on the reversed shapes), a dimension 1 stretches *)
+Fixpoint bc2_rev (a b : list nat) : option (list nat) :=
+  match a, b with
+  | [], _ => Some b
+  | _, [] => Some a
+  | x :: a', y :: b' =>
+      match bc2_rev a' b' with
+      | None => None
+      | Some r => if x =? y then Some (x :: r) else if x =? 1 then Some (y :: r)
+                  else if y =? 1 then Some (x :: r) else None
+      end
+  end.
+Definition bshape (a b : shape) : option shape :=
+  match bc2_rev (rev a) (rev b) with Some r => Some (rev r) | None => None end.
+Fixpoint bshapes (l : list shape) : option shape :=
+  match l with
+  | [] => Some []
+  | s :: r => match bshapes r with None => None | Some t => bshape s t end
+  end.
+
+Definition otl {A} (o : option A) : list A := match o with Some a => [a] | None => [] end.
+(* the advanced entries of a tuple with an array entry: the arrays (masks included) and the ints *)
+Definition ax_adv (a : axsel) : bool := match a_kind a with KSlice => false | _ => true end.
+Definition ax_basic (a : axsel) : bool := negb (ax_adv a).
+(* row-major data of the index array of an advanced axis (shape a_out, data a_coords) broadcast to
+   the shape B: the element at the flat source position of every element of B *)
+Definition bc_data (B : shape) (a : axsel) : list nat :=
+  let s := repeat 1 (length B - length (a_out a)) ++ a_out a in
+  flat_map (fun p => otl (nth_error (a_coords a) p))
+           (outer s (map2 (fun n m => if n =? m then seq 0 m else repeat 0 m) s B)).
+(* coordinates selected on an axis by the k-th element of the broadcast index arrays *)
+Definition sub_k (B : shape) (k : nat) (a : axsel) : list nat :=
+  if ax_adv a then otl (nth_error (bc_data B a) k) else a_coords a.
+(* broadcast axes first: for every element of B, the outer product over the basic axes *)
+Definition front_sel (B : shape) (axs : list axsel) : list nat :=
+  flat_map (fun k => outer (map a_dim axs) (map (sub_k B k) axs)) (seq 0 (prod B)).
+Definition adv_shape (axs : list axsel) : option shape := bshapes (map a_out (filter ax_adv axs)).
+
+Fixpoint takewhile {A} (f : A -> bool) (l : list A) : list A :=
+  match l with
+  | [] => []
+  | x :: r => if f x then x :: takewhile f r else []
+  end.
+
+(* adj = the advanced entries are adjacent in the tuple as written: they resolve to a contiguous block
+   of axes, which acts as ONE axis (of the merged dimension) indexed by the broadcast arrays *)
+Definition adv_gather (adj : bool) (axs : list axsel) : result gather :=
+  if adj then
+    let pre := takewhile ax_basic axs in
+    let rest := dropwhile ax_basic axs in
+    let blk := takewhile ax_adv rest in
+    let post := dropwhile ax_adv rest in
+    match adv_shape blk with
+    | None => Err ValueError                     (* JAX: Incompatible shapes for broadcasting *)
+    | Some B =>
+        let axs' := pre ++ mkAx (prod (map a_dim blk)) (front_sel B blk) B KArr :: post in
+        Ok (mkG (concat (map a_out axs')) (outer (map a_dim axs') (map a_coords axs')))
+    end
+  else
+    match adv_shape axs with
+    | None => Err ValueError
+    | Some B => Ok (mkG (B ++ concat (map a_out (filter ax_basic axs))) (front_sel B axs))
+    end.
+
+Definition index_adv (sh : shape) (l : list ix) : result gather :=
+  if 1 <? count_ell l then Err IndexError
+  else if length sh <? consumed l then Err IndexError
+  else
+    match resolve (length sh - consumed l) sh l with
+    | Err e => Err e
+    | Ok axs => adv_gather (adjacent l) axs
+    end.
+
+Definition leaf_gather (sh : shape) (l : list ix) : result gather :=
   match index_leaf sh l with
   | Err e => Err e
   | Ok (Some g) => Ok g
-  | Ok None => match ext with Some g => Ok g | None => Err OutOfFuel end
+  | Ok None => index_adv sh l
   end.
 (* jax.tree.map over the leaves, left to right: the first error wins *)
-Fixpoint gathers (ins : list shape) (l : list ix) (ext : list gather) : result (list gather) :=
+Fixpoint gathers (ins : list shape) (l : list ix) : result (list gather) :=
   match ins with
   | [] => Ok []
   | sh :: ins' =>
-      match leaf_gather sh l (hd_error ext) with
+      match leaf_gather sh l with
       | Err e => Err e
       | Ok g =>
-          match gathers ins' l (tl ext) with
+          match gathers ins' l with
           | Err e => Err e
           | Ok gs => Ok (g :: gs)
           end
@@ -254,7 +338,7 @@ Definition infer_unique (l : list ix) (user : option bool) : bool :=
 Record iop := mkIop { i_ix : list ix; i_in : list shape; i_out : list shape; i_unique : bool }.
 
 Definition Index_ctor (a : iarg) (ins : list shape) (outs : option (list shape)) (user : option bool)
-    (ext : list gather) : result iop :=
+    : result iop :=
   let l := wrap a in
   if 1 <? count_ell l then Err ValueError                 (* _check_indices *)
   else
@@ -263,7 +347,7 @@ Definition Index_ctor (a : iarg) (ins : list shape) (outs : option (list shape))
     | None =>
         if existsb is_mask l then Err ValueError           (* mask requires out_structure *)
         else
-          match gathers ins l ext with                     (* jax.eval_shape of leaf[indices] *)
+          match gathers ins l with                     (* jax.eval_shape of leaf[indices] *)
           | Err e => Err e
           | Ok gs => Ok (mkIop l ins (map g_out gs) u)
           end
@@ -327,7 +411,7 @@ Definition reduce_PtP (o : iop) : result red :=
 (* PackOperator: every leaf indexed by the mask; PackUnpackRule: (pack @ pack.T) -> identity *)
 Record pop := mkPop { p_msh : shape; p_bits : list bool; p_in : list shape }.
 Definition Pack_gathers (p : pop) : result (list gather) :=
-  gathers (p_in p) [XMask (p_msh p) (p_bits p)] [].
+  gathers (p_in p) [XMask (p_msh p) (p_bits p)].
 Definition Pack_out (p : pop) : result (list shape) :=
   match Pack_gathers p with Err e => Err e | Ok gs => Ok (map g_out gs) end.
 (* the closed form of x[mask] on a leaf of shape msh ++ rest *)
@@ -389,18 +473,12 @@ Definition axis_pos (r : nat) (axis : Z) : nat := Z.to_nat (if (axis <? 0)%Z the
 
 (* ------------------------------------------------------------------------------------------ *)
 (* observations compared with the implementation (data over Z) *)
-Fixpoint map2 {A B C} (f : A -> B -> C) (l : list A) (m : list B) : list C :=
-  match l, m with
-  | a :: l', b :: m' => f a b :: map2 f l' m'
-  | _, _ => []
-  end.
-
 Definition obs_index (a : iarg) (ins : list shape) (outs : option (list shape)) (user : option bool)
-    (ext : list gather) (ys : list (list Z)) :=
-  match Index_ctor a ins outs user ext with
+    (ys : list (list Z)) :=
+  match Index_ctor a ins outs user with
   | Err e => Err e
   | Ok o =>
-      let gs := gathers ins (i_ix o) ext in
+      let gs := gathers ins (i_ix o) in
       Ok (i_unique o,
           Index_axes o,
           i_out o,
